@@ -91,6 +91,29 @@ func runULHistory(hi int, h hmap) {
 			ue.KnasEnc, ue.KnasInt = key16(str(op, "kenc")), key16(str(op, "kint"))
 			kenc, kint = ue.KnasEnc[:], ue.KnasInt[:]
 			continue
+		case "bad":
+			// a message the codec cannot take (unknown message type, truncated body) is refused and is
+			// not a sent message: the counters stay where they were and the history goes on
+			ulB, dlB := ue.ULCount.Get(), ue.DLCount.Get()
+			garbage := [][]byte{{0x7e, 0x00, 0xff}, {0x7e, 0x00, 0xff, 0x00, 0x00}, {0x7e, 0x00, 0x57, 0x2d}, {0x2e, 0x01, 0x01, 0xff}, {0x7e, 0x00, 0x00}}[num(op, "which", 0)%5]
+			_, err := tglib.EncodeNasPduWithSecurity(ue, append([]byte{}, garbage...), uint8(num(op, "sht", 2)), true, false)
+			if err == nil {
+				// the codec took it (that is the codec's business, C08): it was a send like any other, its
+				// content is not judged here, its COUNT is
+				want := (next + 1) & 0xffffff
+				if got := ue.ULCount.Get(); got != want {
+					fail("ul.count-after", "uplink COUNT is %d after a send with COUNT %d, expected %d", got, next, want)
+					ue.ULCount.Set(uint16(want>>8), uint8(want))
+				}
+				next = want
+				continue
+			}
+			if ue.ULCount.Get() != ulB || ue.DLCount.Get() != dlB {
+				fail("ul.count-after-error", "a refused message (%v) moved the counters from UL %d / DL %d to UL %d / DL %d", err, ulB, dlB, ue.ULCount.Get(), ue.DLCount.Get())
+				ue.ULCount.Set(uint16(ulB>>8), uint8(ulB))
+				ue.DLCount.Set(uint16(dlB>>8), uint8(dlB))
+			}
+			continue
 		}
 		msg := op["msg"].(hmap)
 		plain := ulPlain(str(msg, "kind"), num(msg, "len", 0), uint64(num(msg, "seed", 0)))
